@@ -19,8 +19,8 @@ import (
 	"regexp"
 	"runtime/metrics"
 	"sort"
-	"sync/atomic"
 	"strings"
+	"sync/atomic"
 	"time"
 
 	"github.com/tjfoc/gmsm/gmtls"
@@ -651,22 +651,22 @@ func c18run(args []string) error {
 			seg, empty, ct := tlv(0x04, c), []byte{0x04, 0x00}, tb|0x20
 			half := len(c) / 2
 			forms := map[string][]byte{
-				"one segment":                      tlv(ct, seg),
-				"two segments":                     tlv(ct, tlv(0x04, c[:half]), tlv(0x04, c[half:])),
-				"a segment and an empty one":       tlv(ct, seg, empty),
-				"an empty segment and a segment":   tlv(ct, empty, seg),
-				"an empty segment between two":     tlv(ct, tlv(0x04, c[:half]), empty, tlv(0x04, c[half:])),
-				"only an empty segment":            tlv(ct, empty),
-				"only empty segments":              tlv(ct, empty, empty, empty),
-				"no segment":                       tlv(ct),
-				"nested constructed segment":       tlv(ct, tlv(0x24, seg)),
-				"a NULL among the segments":        tlv(ct, seg, []byte{0x05, 0x00}),
-				"indefinite, one segment":          ind(ct, true, seg),
-				"indefinite, segment and empty":    ind(ct, true, seg, empty),
-				"indefinite, empty and segment":    ind(ct, true, empty, seg),
-				"indefinite, only empty":           ind(ct, true, empty),
-				"indefinite, no segment":           ind(ct, true),
-				"indefinite nested in indefinite":  ind(ct, true, ind(0x24, true, seg, empty)),
+				"one segment":                        tlv(ct, seg),
+				"two segments":                       tlv(ct, tlv(0x04, c[:half]), tlv(0x04, c[half:])),
+				"a segment and an empty one":         tlv(ct, seg, empty),
+				"an empty segment and a segment":     tlv(ct, empty, seg),
+				"an empty segment between two":       tlv(ct, tlv(0x04, c[:half]), empty, tlv(0x04, c[half:])),
+				"only an empty segment":              tlv(ct, empty),
+				"only empty segments":                tlv(ct, empty, empty, empty),
+				"no segment":                         tlv(ct),
+				"nested constructed segment":         tlv(ct, tlv(0x24, seg)),
+				"a NULL among the segments":          tlv(ct, seg, []byte{0x05, 0x00}),
+				"indefinite, one segment":            ind(ct, true, seg),
+				"indefinite, segment and empty":      ind(ct, true, seg, empty),
+				"indefinite, empty and segment":      ind(ct, true, empty, seg),
+				"indefinite, only empty":             ind(ct, true, empty),
+				"indefinite, no segment":             ind(ct, true),
+				"indefinite nested in indefinite":    ind(ct, true, ind(0x24, true, seg, empty)),
 				"indefinite without end-of-contents": ind(ct, false, seg),
 				"indefinite segment inside definite": tlv(ct, ind(0x24, true, seg)),
 			}
